@@ -465,6 +465,14 @@ def run_check(plug: Plugin, tier: str, seed: int, level_note=""):
         # independent re-check of the property file and everything it depends on (runs beside the correspondence)
         chk = subprocess.Popen(f"timeout 1800 coqchk -o -silent -Q {COQ} Curies Curies.props.{pid}", shell=True,
                                stdout=subprocess.PIPE, stderr=subprocess.STDOUT, text=True)
+    rtv = []
+    if tier == "thorough" and os.environ.get("VERIF_NO_RUNTIME_VALIDATION") != "1":
+        # the models of runtime behaviour this property's theorems lean on (csv, json, the Turtle short-string lexer) are validated
+        # against the running interpreter: each script evaluates the Gallina definitions on thousands of generated inputs inside Coq
+        # and compares with what CPython / rdflib answer (a test of the runtime model, beside the correspondence of the check)
+        for script in getattr(plug, "runtime_validators", []):
+            rtv.append((script, subprocess.Popen(["timeout", "3000", "/venv/bin/python", os.path.join(ROOT, script)],
+                                                 stdout=subprocess.PIPE, stderr=subprocess.STDOUT, text=True)))
     if not b["gen"]["ok"]:
         failed = b["gen"].get("failed_sections")
         mine = GEN_SECTIONS.get(pid, [])
@@ -577,6 +585,16 @@ def run_check(plug: Plugin, tier: str, seed: int, level_note=""):
                   "axioms": m_ax.group(1).strip() if m_ax else None}
         if chk.returncode != 0 or coqchk["axioms"] != "<none>":
             obl["broken"].append(f"coqchk on props/{pid}: rc={chk.returncode} axioms={coqchk['axioms']} " + out[-800:])
+    runtime_validation = []
+    for script, proc in rtv:
+        out = proc.communicate()[0]
+        last = [ln for ln in out.strip().split("\n") if ln.strip()][-1:] or [""]
+        runtime_validation.append({"script": script, "rc": proc.returncode, "result": last[0][:300]})
+        if proc.returncode != 0:
+            obl["broken"].append(f"runtime-model validation {script}: rc={proc.returncode}: {last[0][:300]}")
+        else:
+            import shutil
+            shutil.rmtree(os.path.join(ROOT, "_build", "textlayer", os.path.basename(script)[len("validate_"):-3]), ignore_errors=True)
     if invalid > max(3, 0.02 * (evaluations + invalid)):
         # on the unchanged tree no generated case is outside the validity domain (the cases are rewritten from the implementation's
         # own state before validity is decided): a check must not turn green because its cases stopped counting
@@ -668,6 +686,7 @@ def run_check(plug: Plugin, tier: str, seed: int, level_note=""):
             "theorems": obl["theorems"],
             "coqchk": coqchk,
             "extraction_cross_check": xcheck,
+            "runtime_model_validation": runtime_validation,
             "broken_obligations": obl["broken"],
             "evaluations": evaluations,
             "distinct_nontrivial": len(nontriv),
